@@ -49,6 +49,21 @@ Theorem character_records_sound : forall i v b l, check_image i = true -> In (v,
 Proof. exact ImageProofs.chars_sound_l. Qed.
 Print Assumptions character_records_sound.
 
+(* completeness: every rule object that the compiler created (reported by the rule hook, read back from the
+   image) is a member of the chains in which lookups search for it - the forward bucket / character record for
+   its characters unless it is `nofor', the backward bucket / cell record for its cells unless it is `noback', the
+   pass chains for multipass rules.  Together with forward_chains_sound: it sits in THE bucket of its first two
+   characters.  (exp_* mirror the dispatch at the end of addRule.) *)
+Theorem every_rule_is_linked : forall i rules r, rules_linked i rules = true -> In r rules ->
+  (exp_fwd r = true -> exists h l, In (h, l) (i_fwd i) /\ In (ri_off r) (map c_off l)) /\
+  (exp_back r = true -> exists h l, In (h, l) (i_back i) /\ In (ri_off r) (map c_off l)) /\
+  (exp_char r = true -> exists vb l, In (vb, l) (i_chars i) /\ In (ri_off r) (map c_off l)) /\
+  (exp_cell r = true -> exists vb l, In (vb, l) (i_cells i) /\ In (ri_off r) (map c_off l)) /\
+  (exp_fpass r = true -> exists n l, In (n, l) (i_fpass i) /\ In (ri_off r) (map c_off l)) /\
+  (exp_bpass r = true -> exists n l, In (n, l) (i_bpass i) /\ In (ri_off r) (map c_off l)).
+Proof. exact ImageProofs.rules_linked_l. Qed.
+Print Assumptions every_rule_is_linked.
+
 (* ---- the allocator, for every sequence of sizes *)
 Definition arena_run (hdr : Z) (sizes : list Z) : arena :=
   fold_left (fun ar n => fst (arena_alloc hdr ar n)) sizes (arena_init hdr).
